@@ -307,6 +307,30 @@ def _run(case, note, tmp):
         check(raised, "save_html() with an equal, newly built dependency did not raise for the missing file")
         check(snapshot_dir(target) == before, "save_html() touched the target directory before failing")
         later_fault = True
+    # the same document object saved a second time with the opposite include_version setting
+    resaved = False
+    if local and src_kind != "libtest" and case["caller"] in ("doc", "html-doc") and not case.get("fault_later"):
+        content2 = h.Tag("div", "hello", h.Tag("span", dep, "x", _add_ws=False))
+        docobj = h.HTMLDocument(content2, lang="en") if case["caller"] == "doc" else h.HTMLDocument(h.Tag("html", h.Tag("head", h.Tag("title", "t")), h.Tag("body", content2)))
+        out2 = os.path.join(tmp, "out again")
+        os.makedirs(out2)
+        for k_, iv_ in enumerate((iv, not iv, iv)):
+            f_ = os.path.join(out2, "page%d.html" % k_)
+            docobj.save_html(f_, libdir=libdir, include_version=iv_)
+            with open(f_, encoding="utf-8") as fh:
+                t_ = fh.read()
+            u_ = []
+            for tk in T.tokenize(t_):
+                if tk.kind == "open" and tk.name == "script":
+                    u_ += [v for k, v in tk.attrs if k == "src"]
+                if tk.kind == "open" and tk.name == "link":
+                    u_ += [v for k, v in tk.attrs if k == "href"]
+            want_ = [D.url(dep_recipe, s_, libdir, iv_) for s_ in sheets + scripts]
+            check(u_ == want_, f"saving the same document object again (include_version={iv_}) writes other URLs than a fresh document would", want_, u_)
+            for u1 in u_:
+                fp_ = os.path.normpath(os.path.join(out2, urllib.parse.unquote(urllib.parse.urlsplit(u1).path)))
+                check(os.path.isfile(fp_), "a URL written by the repeated save does not name a copied file", u1)
+        resaved = True
     moved = False
     if src_kind == "reldir" and listed:
         # the same relative directory name in another project (other working directory, other file contents)
@@ -333,6 +357,7 @@ def _run(case, note, tmp):
         local and need_enc and (any("/" in r for r in scripts + sheets) or libdir != "lib" or not iv),
         "src:" + src_kind,
         "same-relative-directory-in-two-projects" if moved else "",
+        "same-document-saved-with-both-include_version-settings" if resaved else "",
         "all_files" if all_files else "",
         "pre:" + case["pre"] if local else "",
         "caller:" + case["caller"],
@@ -383,7 +408,7 @@ CLAUSES = [
         quick=600,
         thorough=5000,
         shards_quick=4,
-        required=("fault", "fault-after-success", "src:dir", "src:pkg", "src:url", "src:none", "src:libtest", "src:reldir", "same-relative-directory-in-two-projects", "all_files", "pre:stale", "caller:tag", "caller:list", "caller:doc", "caller:html"),
+        required=("fault", "fault-after-success", "src:dir", "src:pkg", "src:url", "src:none", "src:libtest", "src:reldir", "same-relative-directory-in-two-projects", "same-document-saved-with-both-include_version-settings", "all_files", "pre:stale", "caller:tag", "caller:list", "caller:doc", "caller:html"),
         rule="see RULE",
     ),
 ]
